@@ -56,17 +56,29 @@ AddlUnit(k0) ==
       nobuild |-> <<>>]
 
 (* ---- fmt ---- *)
-FmtPars == Formats \X {"req", "opt", "item"}
+\* positions: required / optional / array items written inline; nreq / nitem / nmap: a NULLABLE format definition
+\* ([string, null]) reached through $ref as a required property, as array items, as the values of a map -- the Go
+\* type is a pointer to a type of another package, and a null must stay nil
+FmtPars == Formats \X {"req", "opt", "item", "nreq", "nitem", "nmap"}
 FmtUnit(p) ==
-  LET leaf == [type |-> <<"string">>, format |-> p[1]]
-      xs == IF p[2] = "item" THEN [type |-> <<"array">>, items |-> leaf] ELSE leaf
-      v == IF p[2] = "item" THEN JArr(<<JFmt(p[1]), JFmt(p[1])>>) ELSE JFmt(p[1])
+  LET viaDef == p[2] \in {"nreq", "nitem", "nmap"}
+      leaf == [type |-> IF viaDef THEN <<"string", "null">> ELSE <<"string">>, format |-> p[1]]
+      at == IF viaDef THEN [ref |-> [k |-> "defs", n |-> "F"]] ELSE leaf
+      xs == CASE p[2] \in {"item", "nitem"} -> [type |-> <<"array">>, items |-> at]
+              [] p[2] = "nmap" -> [type |-> <<"object">>, additionalProperties |-> [k |-> "s", s |-> at]]
+              [] OTHER -> at
+      wrap(e1, e2) == CASE p[2] \in {"item", "nitem"} -> JArr(<<e1, e2>>)
+                        [] p[2] = "nmap" -> JObj(<<KV("j", e1), KV("k", e2)>>)
+                        [] OTHER -> e2
+      v == wrap(JFmt(p[1]), JFmt(p[1]))
       fvs == SetToSeq(FmtVariants(p[1]))
-      vdoc(i) == JObj(<<KV("x", IF p[2] = "item" THEN JArr(<<JFmt(p[1]), JFmtV(p[1], fvs[i])>>) ELSE JFmtV(p[1], fvs[i]))>>)
+      vdoc(i) == JObj(<<KV("x", wrap(JFmt(p[1]), JFmtV(p[1], fvs[i])))>>)
   IN [prop |-> "C02", fam |-> "fmt", par |-> p[1] \o "/" \o p[2],
       schema |-> ("type" :> <<"object">>) @@ ("properties" :> <<[k |-> "x", s |-> xs]>>)
                  @@ (IF p[2] = "opt" THEN <<>> ELSE "required" :> <<"x">>),
-      defs |-> <<>>, docs |-> <<JObj(<<KV("x", v)>>)>> \o (IF p[2] = "opt" THEN <<JObj(<<>>)>> ELSE <<>>) \o [i \in DOMAIN fvs |-> vdoc(i)],
+      defs |-> IF viaDef THEN <<[k |-> "F", s |-> leaf]>> ELSE <<>>,
+      docs |-> <<JObj(<<KV("x", v)>>)>> \o (IF p[2] = "opt" THEN <<JObj(<<>>)>> ELSE <<>>) \o [i \in DOMAIN fvs |-> vdoc(i)]
+               \o (IF viaDef THEN <<JObj(<<KV("x", wrap(JFmt(p[1]), JNull))>>), JObj(<<KV("x", wrap(JNull, JNull))>>)>> ELSE <<>>),
       nobuild |-> <<>>]
 
 (* ---- big / deep ---- *)
